@@ -125,7 +125,11 @@ def judge_collected(ctx, label, tb, contexts, res, wb, flags_only=False):
                 try:
                     a = np.ma.getdata(arr)
                     if name == "tinp":
-                        a = np.asarray(a).astype("datetime64[s]").astype("int64") if a.dtype.kind == "M" else np.asarray(a)
+                        if a.dtype.kind == "M":
+                            unit = np.datetime_data(a.dtype)[0]
+                            a = np.asarray(a).astype("int64") // {"s": 1, "ms": 10 ** 3, "us": 10 ** 6, "ns": 10 ** 9}.get(unit, 1)
+                        else:
+                            a = np.asarray(a)
                     ok = a.shape == (tb.n,) and all(a[i] == src[i] for i in range(tb.n) if covered[i]) and not any(
                         np.ma.getmaskarray(arr)[i] for i in range(tb.n) if covered[i])
                 except Exception:  # noqa: BLE001
@@ -239,6 +243,43 @@ def run(ctx) -> None:
                                        "contexts": core.jsonable(contexts),
                                        "outcomes": core.jsonable([{"|".join(map(str, k)): v for k, v in o.items()}
                                                                   for o in outcomes[:3]])})
+        # ---- special tables: (a) coarse time units with instants outside the datetime64[ns] range, (b) a long record whose
+        #      rows are not in time order, so that a window covers non-contiguous rows
+        if ctx.shard == 0:
+            far = 16725225600  # 2500-01-01
+            for unit in ("s", "ms"):
+                for n in (4, 7):
+                    tb = P.Table(n, streams=("v1",), secs=[far + 3600 * k for k in range(n)], time_unit=unit, with_pos=False)
+                    for combo in ([(0, 2), (2, n)], [(1, 3)], [(0, n)], [(2, n), (0, 1)]):
+                        ctxs = [{"window": to_window(tb, iv), "streams": {"v1": [("qartod", "vf_probe_test", {"tag": ci + 1})]}}
+                                for ci, iv in enumerate(combo)]
+                        res, err = P.run_frontend("pandas", tb, P.build_config(ctxs), scratch, {})
+                        wb = {"kind": "collect", "frontend": "pandas", "table": tb.describe(), "contexts": core.jsonable(ctxs),
+                              "arrival": "config order", "note": f"time column datetime64[{unit}], year 2500"}
+                        if err is not None:
+                            ctx.violation(f"C06:pandas:far-dates:run-raised:{type(err).__name__}@{P.client_where(err)}", {**wb, "error": repr(err)[:300]})
+                            continue
+                        judge_collected(ctx, f"pandas:far-dates-{unit}", tb, ctxs, res, wb)
+                        ctx.count("c06.far_date_collections")
+                        ctx.case(f"far-dates|{unit}|n{n}|k{len(combo)}")
+            n = 20001
+            secs = [P.T0 + (k // 2) * 60 + (31 * 86400 if k % 2 else 0) for k in range(n)]  # rows alternate between two months
+            tb = P.Table(n, streams=("v1",), secs=secs, with_pos=False)
+            cut = P.T0 + 20 * 86400
+            for fe in ("pandas", "numpy-dict"):
+                for order in ((0, 1), (1, 0)):
+                    base = [{"window": (None, cut), "streams": {"v1": [("qartod", "vf_probe_test", {"tag": 1})]}},
+                            {"window": (cut, None), "streams": {"v1": [("qartod", "vf_probe_test", {"tag": 2})]}}]
+                    ctxs = [base[k] for k in order]
+                    res, err = P.run_frontend(fe, tb, P.build_config(ctxs), scratch, {})
+                    wb = {"kind": "collect", "frontend": fe, "table": tb.describe(), "contexts": core.jsonable(ctxs),
+                          "arrival": f"config order {list(order)}", "note": "20001 rows alternating between two months"}
+                    if err is not None:
+                        ctx.violation(f"C06:{fe}:long-interleaved:run-raised:{type(err).__name__}@{P.client_where(err)}", {**wb, "error": repr(err)[:300]})
+                        continue
+                    judge_collected(ctx, f"{fe}:long-interleaved", tb, ctxs, res, wb)
+                    ctx.count("c06.long_interleaved_collections")
+                    ctx.case(f"long-interleaved|{fe}|{order}")
         ctx.exhaustive.append("all sets of 1..3 disjoint contiguous windows over n<=3 rows (n>=4: every 3rd in quick) x all arrival orders")
     finally:
         scratch.close()
